@@ -148,7 +148,9 @@ func planSession(t *testing.T, run *ev.Run, si, nPlans int) *violation {
 		)
 		for attempt := 0; ; attempt++ {
 			g := &gen{r: r, cfg: genCfg{slots: nSlots, base: nBase, users: 10, dummies: nDummies, maxDepth: 4, natives: r.Intn(5) != 0, committee: committee}, m: m}
-			if r.Intn(10) < 3 {
+			if x := r.Intn(20); x < 3 {
+				root = g.shaped(7) // notify-only callees under reduced flags
+			} else if x < 8 {
 				root = g.shaped(r.Intn(nShapes))
 			} else {
 				root = g.root()
@@ -267,6 +269,11 @@ func planSession(t *testing.T, run *ev.Run, si, nPlans int) *violation {
 		run.Obs("plan_rolled_back_calls_with_native_effects", int64(st.nativeRolledBack))
 		run.Obs("plan_callback_throws", int64(st.callbackThrows))
 		run.Obs("plan_calls", int64(st.calls))
+		run.Obs("plan_calls_with_notify_but_no_write_flags", int64(st.notifyOnlyCalls))
+		run.Obs("plan_calls_with_notify_but_no_write_flags_from_reduced_caller", int64(st.notifyOnlyNested))
+		run.Obs("plan_notify_only_callee_exceptions_caught_by_caller", int64(st.notifyOnlyCaughtAtCaller))
+		run.Obs("plan_notify_only_callee_exceptions_caught_by_enclosing_frame", int64(st.notifyOnlyCaughtAtAncestor))
+		run.Obs("plan_notify_only_callee_notifications_rolled_back", int64(st.notifyOnlyNotesRolledBack))
 		run.ObsMax("plan_max_depth", int64(st.maxDepth))
 		for f, on := range map[string]bool{"shape_try_only_in_callers_caller": st.grandCallerOnly, "shape_try_ended_before_call": st.tryEndedBeforeCall, "shape_call_from_catch_or_finally": st.callFromFinally, "shape_reentrancy_with_open_try": st.reentrantOpenTry, "shape_native_callback_throws": st.callbackThrows > 0} {
 			if on {
